@@ -146,6 +146,10 @@ func c05Shapes() []c05shape {
 		{Name: "string", Kind: "prim", Schema: strS, Values: []any{"abc", "a1", "Hello", "x-y_z", "123", "true", "p", "role"}},
 		{Name: "string-needing-percent-encoding", Kind: "prim", Escape: true, Schema: strS, Values: []any{"a b", "50%", "caf\u00e9", "x#y?z"}},
 		{Name: "string-enum-needing-percent-encoding", Kind: "prim", Escape: true, Schema: gen.S{"type": "string", "enum": gen.Arr("a b", "x/y")}, Values: []any{"a b", "x/y", "a%20b"}},
+		// blanks at either end belong to the value: trimmed, these values change their verdict
+		{Name: "string-with-blanks-around", Kind: "prim", Escape: true, Schema: gen.S{"type": "string", "minLength": 2.0, "maxLength": 3.0}, Values: []any{" a", "a ", " a ", "  ", " ", "\ta", "a\t", " ab ", "ab"}},
+		{Name: "string-enum-with-blanks-around", Kind: "prim", Escape: true, Schema: gen.S{"type": "string", "enum": gen.Arr(" a ", "b")}, Values: []any{" a ", "a", "b", " b", "b "}},
+		{Name: "string-pattern-with-blanks-around", Kind: "prim", Escape: true, Schema: gen.S{"type": "string", "pattern": "^ [a-z]+ $"}, Values: []any{" ab ", "ab", " ab", "ab "}},
 		{Name: "integer-with-default", Kind: "prim", Schema: gen.S{"type": "integer", "default": 7.0, "maximum": 9.0}, Values: []any{5.0, 10.0}},
 		{Name: "array-with-default", Kind: "array", Schema: gen.S{"type": "array", "items": gen.S{"type": "string"}, "default": gen.Arr("d"), "maxItems": 2.0}, Values: []any{gen.Arr("x"), gen.Arr("x", "y", "z")}},
 		{Name: "string-constrained", Kind: "prim", Schema: gen.S{"type": "string", "minLength": 2.0, "maxLength": 4.0, "pattern": "^[a-z]+$"}, Values: []any{"a", "ab", "abcd", "abcde", "AB", "a1"}},
@@ -207,6 +211,19 @@ func c05Shapes() []c05shape {
 			gen.S{"type": "object", "required": gen.Arr("id"), "properties": gen.S{"id": gen.S{"type": "integer", "minimum": 1.0}}},
 			gen.S{"type": "object", "required": gen.Arr("role"), "properties": gen.S{"role": gen.S{"type": "string", "maxLength": 3.0}}})},
 			Values: []any{gen.S{"id": 7.0}, gen.S{"id": 0.0}, gen.S{"role": "adm"}, gen.S{"role": "toolong"}}},
+		// alternatives that are closed objects: each member decides about the keys for itself
+		{Name: "object-oneOf-closed-members", Kind: "object", Schema: gen.S{"oneOf": gen.Arr(
+			gen.S{"type": "object", "additionalProperties": false, "properties": gen.S{"id": gen.S{"type": "integer", "minimum": 1.0}}},
+			gen.S{"type": "object", "additionalProperties": false, "required": gen.Arr("role"), "properties": gen.S{"role": gen.S{"type": "string", "maxLength": 3.0}}})},
+			Values: []any{gen.S{"id": 7.0}, gen.S{"id": 0.0}, gen.S{"role": "adm"}, gen.S{"role": "toolong"}}},
+		{Name: "object-anyOf-closed-members", Kind: "object", Schema: gen.S{"anyOf": gen.Arr(
+			gen.S{"type": "object", "additionalProperties": false, "required": gen.Arr("id"), "properties": gen.S{"id": gen.S{"type": "integer", "minimum": 1.0}}},
+			gen.S{"type": "object", "additionalProperties": false, "required": gen.Arr("role"), "properties": gen.S{"role": gen.S{"type": "string", "maxLength": 3.0}}})},
+			Values: []any{gen.S{"id": 7.0}, gen.S{"id": 0.0}, gen.S{"role": "adm"}, gen.S{"role": "toolong"}}},
+		{Name: "object-anyOf-closed-then-open-member", Kind: "object", Schema: gen.S{"anyOf": gen.Arr(
+			gen.S{"type": "object", "additionalProperties": false, "required": gen.Arr("id"), "properties": gen.S{"id": gen.S{"type": "integer", "minimum": 1.0}}},
+			gen.S{"type": "object", "required": gen.Arr("role"), "properties": gen.S{"role": gen.S{"type": "string", "maxLength": 3.0}, "n": gen.S{"type": "integer"}}})},
+			Values: []any{gen.S{"id": 7.0}, gen.S{"role": "adm", "n": 2.0}, gen.S{"role": "toolong"}, gen.S{"role": "adm", "n": 3.0}}},
 		{Name: "deep-nested", Kind: "deep", Schema: gen.S{"type": "object", "properties": gen.S{
 			"s": strS, "n": intS,
 			"o":    gen.S{"type": "object", "properties": gen.S{"b": intS, "c": gen.S{"type": "object", "properties": gen.S{"d": boolS}}}},
